@@ -3,6 +3,8 @@
 
    [run d p raw]    what Engine.Render prints for `= p` (raw = false) or `!= p` (raw = true) with page data d
    [go_path d p]    the leaf the same path reaches in plain Go (None = nothing)
+   [Idx c i]        a bracket index that denotes the integer i - any integer, negative ones included; c = it is
+                    computed at run time (`xs[d.pos]`, `xs[xs.length - 1]`) rather than written as a literal
    [dom_C11]        names_ok && shape_ok && fold_free && negb top_method && negb raw_undefined *)
 From PV Require Import Base.Bytes Base.Escape Models.Convert Proofs.ConvertProofs.
 
@@ -46,14 +48,19 @@ Theorem C11_absent_silent : forall (d : gv) (p : list step) (raw : bool),
 Proof. exact absent_silent. Qed.
 Print Assumptions C11_absent_silent.
 
-(* nil pointer / nil interface, missing key, index out of range, unexported or unknown name: one step each
-   yields Nil, and whatever follows Nil prints nothing *)
+(* nil pointer / nil interface, missing key, index out of range on either side (below 0, at or above the length;
+   literal or computed; on a list, a nil list, a string), unexported or unknown name: one step each yields Nil - and
+   reaches nothing in Go -, and whatever follows Nil prints nothing *)
 Theorem C11_absent_steps :
   (forall s named, eval_step (Some (convert GPtrNil)) s = ROk (Some VNil) /\
                    eval_step (Some (convert (GIfaceNil named))) s = ROk (Some VNil) /\
                    eval_step (Some (convert (GIface named GPtrNil))) s = ROk (Some VNil)) /\
   (forall l k, find_last k l = None -> eval_step (Some (convert (GMap l))) (Key k) = ROk (Some VNil)) /\
-  (forall l i, length l <= i -> eval_step (Some (convert (GSlice l))) (Idx i) = ROk (Some VNil)) /\
+  (forall l c i, (i < 0 \/ Z.of_nat (length l) <= i)%Z ->
+                 eval_step (Some (convert (GSlice l))) (Idx c i) = ROk (Some VNil) /\ go_step (GSlice l) (Idx c i) = None) /\
+  (forall c i, eval_step (Some (convert GSliceNil)) (Idx c i) = ROk (Some VNil) /\ go_step GSliceNil (Idx c i) = None) /\
+  (forall s c i, (i < 0 \/ Z.of_nat (length s) <= i)%Z ->
+                 eval_step (Some (convert (GStr s))) (Idx c i) = ROk (Some VNil) /\ go_step (GStr s) (Idx c i) = None) /\
   (forall g n, opaque_free g = true -> tabular (strip g) = true -> beqb n (B "__assign") = false ->
                go_member g n = None -> fold_hit g n = false ->
                eval_step (Some (convert g)) (Field n) = ROk (Some VNil)) /\
@@ -61,6 +68,25 @@ Theorem C11_absent_steps :
   (forall p raw q, bind (eval_steps (Some VNil) p) (print_val raw q) = ROk []).
 Proof. exact absent_steps. Qed.
 Print Assumptions C11_absent_steps.
+
+(* a bracket index on a list - held directly or behind pointers and interfaces, i.e. wherever it sits in the data -
+   for EVERY integer and both ways of writing it: the element exactly when 0 <= i < length, Nil otherwise, and that
+   is what the index reaches in Go; on a nil list every integer is out of range (paths through such an index are
+   covered by C11_path) *)
+Theorem C11_index_any_integer : forall (g : gv) (l : list gv) (c : bool) (i : Z),
+  opaque_free g = true -> strip g = GSlice l ->
+  eval_step (Some (convert g)) (Idx c i) = ROk (Some (match nth_z l i with Some x => convert x | None => VNil end)) /\
+  go_step g (Idx c i) = nth_z l i /\
+  ((i < 0 \/ Z.of_nat (length l) <= i)%Z -> nth_z l i = None) /\
+  ((0 <= i < Z.of_nat (length l))%Z -> nth_z l i = nth_error l (Z.to_nat i) /\ nth_z l i <> None).
+Proof. exact index_any_integer. Qed.
+Print Assumptions C11_index_any_integer.
+
+Theorem C11_index_nil_list : forall (g : gv) (c : bool) (i : Z),
+  opaque_free g = true -> strip g = GSliceNil ->
+  eval_step (Some (convert g)) (Idx c i) = ROk (Some VNil) /\ go_step g (Idx c i) = None.
+Proof. exact index_nil_list. Qed.
+Print Assumptions C11_index_nil_list.
 
 (* histories: any number of renders one after the other in one process. Every in-domain render of a history prints
    what the property demands of its own value ... *)
